@@ -282,6 +282,9 @@ def SPEC(tier):
         make_stage(pool, 'ctor', 'ctor', 'default', gxx, [], gen_ctors.PRELUDE['default']),
         make_stage(pool, 'ctor-simd', 'ctor', 'simd', gxx, simd, gen_ctors.PRELUDE['simd']),
         make_stage(pool, 'ctor-wxyz', 'ctor', 'wxyz', gxx, ['-DGLM_FORCE_QUAT_DATA_WXYZ'], gen_ctors.PRELUDE['wxyz']),
+        # pre-C++11 language level: GLM_CONFIG_DEFAULTED_FUNCTIONS is off, so every copy constructor is the hand-written one
+        make_stage(pool, 'ctor-wxyz-cxx98', 'ctor', 'wxyz', gxx, ['-DGLM_FORCE_QUAT_DATA_WXYZ', '-DGLM_FORCE_CXX98'], gen_ctors.PRELUDE['wxyz']),
+        make_stage(pool, 'ctor-cxx98', 'ctor', 'default', gxx, ['-DGLM_FORCE_CXX98'], gen_ctors.PRELUDE['default'], thorough_only=True),
         make_stage(pool, 'swz-function-xyzwonly', 'swizzle', 'function-basic', gxx, ['-DGLM_FORCE_SWIZZLE', '-DGLM_FORCE_XYZW_ONLY'], gen_swizzle.PRELUDE['function'], thorough_only=True),
         make_stage(pool, 'ctor-xyzw', 'ctor', 'xyzw', gxx, ['-DGLM_FORCE_QUAT_DATA_XYZW'], gen_ctors.PRELUDE['xyzw'], thorough_only=True),
         make_stage(pool, 'ctor-sse2', 'ctor', 'simd', gxx, ['-DGLM_FORCE_INTRINSICS', '-msse2'], gen_ctors.PRELUDE['simd'], thorough_only=True),
